@@ -46,7 +46,7 @@ class Ctx:
         return {"k": [int(b) for b in g.are_values_known()], "lo": self.arr(g.get_lower_bounds()), "up": self.arr(g.get_upper_bounds())}
 
 
-NOGAP = {"has": 0, "en": [0, 0], "l1": [0, 0], "linf": [0, 0], "l2": [0, 0]}
+NOGAP = {"has": 0, "pure": 1, "en": [0, 0], "l1": [0, 0], "linf": [0, 0], "l2": [0, 0]}
 
 
 def gaps_of(ctx: Ctx, g, maxabs: float) -> dict:
@@ -63,13 +63,13 @@ def gaps_of(ctx: Ctx, g, maxabs: float) -> dict:
         li = float(GAP_FUNCTIONS["linf_norm"](g))
         M = max(maxabs, 1e-9)
         if tight:
-            out = {"has": 1,
+            out = {"has": 1, "pure": 1,
                    "en": D.interval(en, factorial(n) * ctx.scale, rel_ulps=8 * (n + 2), mag=(2 * n + 1) * M, tight=True),
                    "l1": D.interval(l1, den1, rel_ulps=4, mag=2 ** n * 2 * M, tight=True),
                    "linf": D.interval(li, den1, rel_ulps=4, mag=2 * M, tight=True),
                    "l2": D.interval(l2 * l2, den1 * den1, rel_ulps=16, mag=2 ** n * 4 * M * M, tight=True)}
         else:
-            out = {"has": 1,
+            out = {"has": 1, "pure": 1,
                    "en": D.interval(en, den1, rel_ulps=64 * (n + 2), mag=(2 * n + 1) * M * 2 ** n),
                    "l1": D.interval(l1, den1, rel_ulps=64 * 2 ** n, mag=2 ** n * 2 * M),
                    "linf": D.interval(li, den1, rel_ulps=16, mag=2 * M),
@@ -191,6 +191,8 @@ def run_trace(tid, n, cls, mode, hidden_f, objs, rng, length, with_gaps, ops_wei
                     raw1 = raw
                 x["bits1"] = 1 if raw == raw1 else 0
                 x["g"] = gaps_of(ctx, g, maxabs) if with_gaps else NOGAP
+                if with_gaps and D.raw_table(g) != raw:
+                    x["g"] = dict(x["g"], pure=0)            # a gap function changed the game it was asked to measure
                 extra.append(x)
             since_compute = 0
         ev["tabs"] = tabs(extra)
